@@ -586,10 +586,10 @@ def main(ctx):
     def batch(cases, tag, cut=True):
         nonlocal any_found
         done = 0
-        for i in range(0, len(cases), 2000):
+        for i in range(0, len(cases), 1000):
             if cut and over_deadline(ctx):
                 break
-            part = cases[i:i + 2000]
+            part = cases[i:i + 1000]
             reals = [run_real(falcon, c) for c in part]
             n, corr = judge(ctx, model, part, reals, tag)
             any_found |= n > 0
@@ -609,10 +609,18 @@ def main(ctx):
     # interleave so that a deadline cut keeps both kinds
     n = 12000 if quick else 120000
     cases = [gen_case(ctx.rng) for _ in range(n)]
-    d_small = batch(ex[:2000], 'small', cut=False)
-    d_rnd = batch(cases[:4000], 'rnd', cut=False)
-    d_small += batch(ex[2000:], 'small')
-    d_rnd += batch(cases[4000:], 'rnd')
+    d_small = batch(ex[:1000], 'small', cut=False)
+    d_rnd = batch(cases[:2000], 'rnd', cut=False)
+    # alternate so that a cut keeps both kinds in proportion
+    i = j = 0
+    rest_s, rest_r = ex[1000:], cases[2000:]
+    while (i < len(rest_s) or j < len(rest_r)) and not over_deadline(ctx):
+        if i < len(rest_s):
+            d_small += batch(rest_s[i:i + 1000], 'small')
+            i += 1000
+        if j < len(rest_r):
+            d_rnd += batch(rest_r[j:j + 2000], 'rnd')
+            j += 2000
     ctx.cov['small_scripts'] = {'planned': len(ex), 'run': d_small}
     ctx.cov['random_sessions'] = {'planned': n, 'run': d_rnd,
                                   'cut_by_deadline_s': QUICK_DEADLINE if (d_rnd < n or d_small < len(ex)) else None}
